@@ -22,6 +22,9 @@ class CallMixin:
       return obj.f[name]
     if name in obj.types:
       obj.f[name] = self.fresh(obj.types[name], f'{obj.tag}.{name}')
+      sch = self.reg.classes.get(obj.cls)
+      if sch is not None and sch.on_field is not None:
+        sch.on_field(self, obj, name)
       return obj.f[name]
     raise Unsupported(f'no field {name} on {obj.cls}')
 
@@ -80,6 +83,16 @@ class CallMixin:
           VFn('slice.indices', impl=lambda it, a, k, _v=v: it.slice_indices(_v, a[0]))
     if isinstance(v, VOpaque):
       return VFn(f'opaque.{name}', impl=lambda it, a, k, _v=v, _n=name: it.opaque_method(_v, _n, a, k))
+    if isinstance(v, VIter):          # ghost view of an iterator (spec only)
+      if name == 'pos':
+        return VInt(v.pos)
+      if name == 'src':
+        return v.src
+      if name == 'dead':
+        return VBool(v.dead)
+      if name == 'ret':
+        return v.ret if v.ret is not None else NONE
+      raise Unsupported(f'iterator attribute {name}')
     if isinstance(v, VFn):
       if name in ('__name__', '__qualname__'):
         return VStr(v.name)
